@@ -35,7 +35,173 @@ const dir = "mtproxy/obfuscated2"
 
 func squash(s string) string { return strings.Join(strings.Fields(s), "") }
 
+// cint evaluates a small constant integer expression (literals, + - *).
+func cint(x ast.Expr) (int, bool) {
+	switch x := x.(type) {
+	case nil:
+		return 0, false
+	case *ast.BasicLit:
+		v, err := strconv.ParseInt(x.Value, 0, 64)
+		return int(v), err == nil
+	case *ast.ParenExpr:
+		return cint(x.X)
+	case *ast.BinaryExpr:
+		a, ok1 := cint(x.X)
+		b, ok2 := cint(x.Y)
+		if !ok1 || !ok2 {
+			return 0, false
+		}
+		switch x.Op {
+		case token.ADD:
+			return a + b, true
+		case token.SUB:
+			return a - b, true
+		case token.MUL:
+			return a * b, true
+		}
+	}
+	return 0, false
+}
+
+// sliceOf finds the first slice expression of identifier `of` inside node n; a missing low bound is 0.
+func sliceOf(f *hc.Facts, n ast.Node, of string) (lo, hi int, ok bool) {
+	ast.Inspect(n, func(m ast.Node) bool {
+		se, is := m.(*ast.SliceExpr)
+		if !is || ok || squash(f.Src(se.X)) != of {
+			return true
+		}
+		l, lok := 0, true
+		if se.Low != nil {
+			l, lok = cint(se.Low)
+		}
+		h, hok := cint(se.High)
+		if lok && hok {
+			lo, hi, ok = l, h, true
+		}
+		return true
+	})
+	return
+}
+
+// stmtWith returns the first statement (at any depth) of fd whose squashed source contains all of subs.
+func stmtWith(f *hc.Facts, fd *ast.FuncDecl, subs ...string) ast.Stmt {
+	var out ast.Stmt
+	if fd == nil || fd.Body == nil {
+		return nil
+	}
+	ast.Inspect(fd.Body, func(m ast.Node) bool {
+		st, is := m.(ast.Stmt)
+		if !is || out != nil {
+			return true
+		}
+		if _, isBlock := st.(*ast.BlockStmt); isBlock {
+			return true
+		}
+		src := squash(f.Src(st))
+		for _, s := range subs {
+			if !strings.Contains(src, s) {
+				return true
+			}
+		}
+		switch st.(type) {
+		case *ast.AssignStmt, *ast.ExprStmt:
+			out = st
+		}
+		return true
+	})
+	return out
+}
+
+func rangeFact(f *hc.Facts, name string, fd *ast.FuncDecl, of string, subs ...string) {
+	st := stmtWith(f, fd, subs...)
+	if st == nil {
+		f.Missing(name+"Lo", "statement with "+strings.Join(subs, " & ")+" not found")
+		f.Missing(name+"Hi", "statement with "+strings.Join(subs, " & ")+" not found")
+		return
+	}
+	lo, hi, ok := sliceOf(f, st, of)
+	if !ok {
+		f.Missing(name+"Lo", "slice of "+of+" with constant bounds not found in `"+squash(f.Src(st))+"`")
+		f.Missing(name+"Hi", "slice of "+of+" with constant bounds not found")
+		return
+	}
+	f.Nat(name+"Lo", lo, of+"[lo:hi] in `"+squash(f.Src(st))+"`")
+	f.Nat(name+"Hi", hi, "")
+}
+
+// layoutFacts: the byte ranges the handshake code uses, as numbers the model interprets.
+func layoutFacts(f *hc.Facts) {
+	cs := f.FuncDecl(dir, "keys.createStreams")
+	rangeFact(f, "encKey", cs, "init", "encryptKey:=")
+	rangeFact(f, "encIV", cs, "init", "encryptIV:=")
+	rangeFact(f, "decKey", cs, "initRev", "decryptKey:=")
+	rangeFact(f, "decIV", cs, "initRev", "decryptIV:=")
+	rangeFact(f, "secretCut", cs, "secret", "secret=secret[")
+	gd := f.FuncDecl(dir, "getDecryptInit")
+	rangeFact(f, "rev", gd, "init", "copy(initRev[:]")
+	gk := f.FuncDecl(dir, "generateKeys")
+	rangeFact(f, "tag", gk, "init", "copy(init[", "protocol[:]")
+	rangeFact(f, "dc", gk, "init", "PutUint16(init[")
+	rangeFact(f, "hdrPlain", gk, "init", "copy(k.header,init[")
+	rangeFact(f, "hdrEnc", gk, "encryptedInit", "copy(k.header[")
+	// k.header[N:] — where the encrypted part goes
+	at := -1
+	if st := stmtWith(f, gk, "copy(k.header["); st != nil {
+		ast.Inspect(st, func(m ast.Node) bool {
+			if se, ok := m.(*ast.SliceExpr); ok && squash(f.Src(se.X)) == "k.header" && se.High == nil {
+				if v, ok := cint(se.Low); ok {
+					at = v
+				}
+			}
+			return true
+		})
+	}
+	if at < 0 {
+		f.Missing("hdrEncAt", "copy(k.header[N:], …) not found")
+	} else {
+		f.Nat("hdrEncAt", at, "copy(k.header[N:], encryptedInit[…])")
+	}
+	// len(secret) < K
+	smin := -1
+	if cs != nil {
+		ast.Inspect(cs, func(m ast.Node) bool {
+			be, ok := m.(*ast.BinaryExpr)
+			if ok && be.Op == token.LSS && squash(f.Src(be.X)) == "len(secret)" {
+				if v, ok := cint(be.Y); ok {
+					smin = v
+				}
+			}
+			return true
+		})
+	}
+	if smin < 0 {
+		f.Missing("secretMin", "len(secret) < K not found in createStreams")
+	} else {
+		f.Nat("secretMin", smin, "createStreams: len(secret) < K is an error")
+	}
+	hl := -1
+	if st := stmtWith(f, gk, "k.header=make([]byte,"); st != nil {
+		ast.Inspect(st, func(m ast.Node) bool {
+			if c, ok := m.(*ast.CallExpr); ok && f.Src(c.Fun) == "make" && len(c.Args) == 2 {
+				if v, ok := cint(c.Args[1]); ok {
+					hl = v
+				}
+			}
+			return true
+		})
+	}
+	if hl < 0 {
+		f.Missing("headerLen", "k.header = make([]byte, N) not found")
+	} else {
+		f.Nat("headerLen", hl, "generateKeys: k.header = make([]byte, N)")
+	}
+	ac := f.FuncDecl(dir, "Accept")
+	rangeFact(f, "metaTag", ac, "decrypted", "copy(meta.Protocol[:]")
+	rangeFact(f, "metaDC", ac, "decrypted", "meta.DC=")
+}
+
 func facts(f *hc.Facts) {
+	layoutFacts(f)
 	gi := f.FuncDecl(dir, "generateInit")
 	var reserved []string
 	abr, zeroSecond := -1, false
@@ -79,36 +245,10 @@ func facts(f *hc.Facts) {
 	src := squash(f.FuncSrc(dir, "generateInit"))
 	f.Bool("secondIntZeroRejected", zeroSecond && strings.Contains(src, "secondInt:=binary.LittleEndian.Uint32(init[4:8]);secondInt==0{continue}"), "generateInit: secondInt == 0 → continue")
 	f.Bool("firstIntIsLE0to4", strings.Contains(src, "firstInt:=binary.LittleEndian.Uint32(init[0:4])"), "generateInit: firstInt = LE32(init[0:4])")
-	// slices used for keys / header
-	cs := squash(f.FuncSrc(dir, "keys.createStreams"))
-	var used []string
-	for _, s := range []string{"init[8:40]", "init[40:56]", "initRev[:32]", "initRev[32:48]", "secret[0:16]", "len(secret)<16",
-		"crypto.SHA256(encryptKey,secret)", "crypto.SHA256(decryptKey,secret)"} {
-		if strings.Contains(cs, s) {
-			used = append(used, s)
-		}
-	}
-	f.Str("createStreamsUses", strings.Join(used, " "), "sub-expressions found in keys.createStreams")
 	gd := squash(f.FuncSrc(dir, "getDecryptInit"))
-	f.Bool("decryptInitIsReversed8to56", strings.Contains(gd, "copy(initRev[:],init[8:56])") && strings.Contains(gd, "initRev[left],initRev[right]=initRev[right],initRev[left]"), "getDecryptInit: reverse of init[8:56]")
-	gk := squash(f.FuncSrc(dir, "generateKeys"))
-	var gused []string
-	for _, s := range []string{"copy(init[56:60],protocol[:])", "binary.LittleEndian.PutUint16(init[60:62],uint16(dc))",
-		"k.encrypt.XORKeyStream(encryptedInit[:],init[:])", "copy(k.header,init[0:56])", "copy(k.header[56:],encryptedInit[56:56+8])"} {
-		if strings.Contains(gk, s) {
-			gused = append(gused, s)
-		}
-	}
-	f.Str("generateKeysUses", strings.Join(gused, " "), "sub-expressions found in generateKeys")
+	f.Bool("decryptInitIsReversed", strings.Contains(gd, "initRev[left],initRev[right]=initRev[right],initRev[left]"), "getDecryptInit: the copied range is reversed in place")
 	ac := squash(f.FuncSrc(dir, "Accept"))
-	var aused []string
-	for _, s := range []string{"buf=make([]byte,64)", "io.ReadFull(conn,buf)", "k.createStreams(buf,secret)", "k.encrypt,k.decrypt=k.decrypt,k.encrypt",
-		"k.decrypt.XORKeyStream(decrypted[:],buf)", "copy(meta.Protocol[:],decrypted[56:60])", "meta.DC=binary.LittleEndian.Uint16(decrypted[60:62])"} {
-		if strings.Contains(ac, s) {
-			aused = append(aused, s)
-		}
-	}
-	f.Str("acceptUses", strings.Join(aused, " "), "sub-expressions found in Accept")
+	f.Bool("acceptSwaps", strings.Contains(ac, "k.encrypt,k.decrypt=k.decrypt,k.encrypt"), "Accept: k.encrypt, k.decrypt = k.decrypt, k.encrypt")
 	// Obfuscated2.Read: the bytes are decrypted before an error of the underlying Read can end the call
 	decFirst := false
 	if fd := f.FuncDecl(dir, "Obfuscated2.Read"); fd != nil && fd.Body != nil {
